@@ -3,7 +3,8 @@
 (* lcm/dispatchers.py and lcm/functools.py, tied to the code by the correspondence families     *)
 (* dispatchers / dispatchers_pytree / wrappers on every run.                                    *)
 From LCM Require Import Base.Prelude Base.Arr Model.Dispatchers Model.Functools.
-From LCM Require Import Proofs.C19_Dispatch Proofs.C19_Wrappers.
+From Coq Require Import Permutation.
+From LCM Require Import Proofs.C19_Dispatch Proofs.C19_Wrappers Proofs.C19_Binding.
 Local Open Scope nat_scope.
 
 (* 1. product map: entry (i1..ik ++ r) is f applied to the i1-th .. ik-th slices of the listed
@@ -95,19 +96,27 @@ Proof.
 Qed.
 Print Assumptions C19_allow_args_rejects.
 
-(* The positive half — a well-formed call binds every value to the parameter of the same name,
-   for every keyword order — is stated here and NOT yet proved in general (it needs the
-   characterisation of the insertion sort by signature position); it is checked by the
-   correspondence family `wrappers` on every run and, for all keyword orders of all calls of one
-   signature with the three kinds, by the computed example below. *)
-Definition C19_wrappers_bind_by_name_full_statement : Prop :=
-  forall (V : Type) (s : sig) (args : list V) (kw : kwargs V),
-    NoDup (names s) -> NoDup (map fst kw) ->
-    (forall k, In k (map fst kw) <-> In k (skipn (length args) (names s))) ->
-    length args <= length (names s) ->
-    (* kinds ordered as Python requires: positional-only, then positional-or-keyword, then keyword-only *)
-    exists b, allow_args s (bind s) args kw = POk b /\
-              forall p v, In (p, v) b <-> (In (p, v) (combine (names s) args) \/ In (p, v) kw).
+(* 5. the positive half: a well-formed call binds every value to the parameter of the same name,
+      whatever the order of the keywords, for signatures with positional-only (po),
+      positional-or-keyword (pk) and keyword-only (ko) parameters.  [v p] is the value intended for
+      parameter p; [kw] is ANY permutation of the keyword items. *)
+Theorem C19_allow_only_kwargs_binds_by_name : forall (V : Type) (v : string -> V) (po pk ko : list string),
+  NoDup (po ++ pk ++ ko) ->
+  forall kw : kwargs V, Permutation kw (named V v (po ++ pk ++ ko)) ->
+  let s := (with_kind PosOnly po ++ with_kind PosOrKw pk ++ with_kind KwOnly ko)%list in
+  allow_only_kwargs s (bind s) [] kw = POk (named V v (names s)).
+Proof. exact allow_only_kwargs_binds_by_name. Qed.
+Print Assumptions C19_allow_only_kwargs_binds_by_name.
+
+(* allow_args: the first n_pos parameters positionally, the remaining ones by keyword in any order *)
+Theorem C19_allow_args_binds_by_name : forall (V : Type) (v : string -> V) (po pk ko : list string),
+  NoDup (po ++ pk ++ ko) ->
+  forall n_pos, n_pos <= length (po ++ pk) ->
+  forall kw : kwargs V, Permutation kw (named V v (skipn n_pos (po ++ pk ++ ko))) ->
+  let s := (with_kind PosOnly po ++ with_kind PosOrKw pk ++ with_kind KwOnly ko)%list in
+  allow_args s (bind s) (map v (firstn n_pos (po ++ pk ++ ko))) kw = POk (named V v (names s)).
+Proof. exact allow_args_binds_by_name. Qed.
+Print Assumptions C19_allow_args_binds_by_name.
 
 Local Open Scope string_scope.
 Example C19_wrappers_all_orders :
